@@ -197,7 +197,20 @@ func (c *Conn) Write(b []byte) (n int, err error) {
 	c.writeLock.Lock()
 	defer c.writeLock.Unlock()
 
-	return c.writeBuf.Write(b)
+	// The buffered writer hands a write that is larger than its buffer straight
+	// to the encoder: never give it more than one block at a time so that no
+	// packet exceeds the negotiated block size.
+	size := c.writeBuf.Size()
+	for len(b) > size {
+		m, err := c.writeBuf.Write(b[:size])
+		n += m
+		if err != nil {
+			return n, err
+		}
+		b = b[size:]
+	}
+	m, err := c.writeBuf.Write(b)
+	return n + m, err
 }
 
 // LocalAddr returns the local network address of the underlying XMPP session.
